@@ -1,16 +1,17 @@
 (** C16 — "searches return the same matches" as a corollary of the view theorems, for every search engine
     that is document-local: what it reports for a shard is the concatenation, in document order, of what a
-    per-document function reports for each visible (live repository) document, given the repository id and
-    the decoded fields of the document (name, content, branch names, language name, sub-repository path,
-    symbols, category).
+    per-document function reports for each visible (live repository) document, given the repository record
+    (id, priority, branch names in order, sub-repository paths) and the decoded fields of the document (name,
+    content, branch names, language name, sub-repository path, symbols, category).
 
     This is the shape of C01's specification of indexData.Search (Model/SearchCore.v [spec_search]:
     [filter (fun k => live c (doc_at c k) && eval c q (doc_at c k)) (all_ids c)], proved equal to the
     mechanism in C01_search_exact_regexp_free / C01_search_exact_partial): a document is reported iff it is
     live and [eval c q d] holds, and [eval] reads only the document's own name, content, branch mask, language
-    and its repository.  [doc_match q (id, dd)] is that per-document verdict together with whatever is reported
+    and its repository.  [doc_match q (r, dd)] is that per-document verdict together with whatever is reported
     for the document (file name, content, branches, language, line matches, symbol info: all computed from
-    [dd]), as a list so that a non-matching document contributes nothing.
+    [r] and [dd]; branch:HEAD needs the FIRST branch of [r], hence the record and not only the id), as a list so
+    that a non-matching document contributes nothing.
 
     The engine is a Section variable: after the Section closes every theorem quantifies over the query type,
     the result type, the per-document function and the engine, with document-locality as a hypothesis. *)
@@ -34,22 +35,32 @@ Proof.
   rewrite filter_app, app_length, IH. reflexivity.
 Qed.
 
+Lemma flat_map_map : forall A B C (f : B -> list C) (g : A -> B) (l : list A),
+  flat_map f (map g l) = flat_map (fun x => f (g x)) l.
+Proof. intros A B C f g l. induction l as [|x r IH]; simpl; auto. rewrite IH. reflexivity. Qed.
+
+Lemma map_flat_map : forall A B C (f : B -> C) (g : A -> list B) (l : list A),
+  map f (flat_map g l) = flat_map (fun x => map f (g x)) l.
+Proof. intros A B C f g l. induction l as [|x r IH]; simpl; auto. rewrite map_app, IH. reflexivity. Qed.
+
 (** number of visible documents of repository [id] in a shard (RepoListEntry.Stats.Documents) *)
 Definition doc_count (id : N) (sh : shard) : nat :=
   length (filter (fun e => N.eqb (fst e) id) (view sh)).
 (** repository [id] is visible in a shard (has a document of a live repository) *)
 Definition visible (id : N) (sh : shard) : Prop := In id (map fst (view sh)).
+(** the repository with exactly this metadata (id, priority, branches in order, sub-repository paths) is visible *)
+Definition visible_repo (r : srepo) (sh : shard) : Prop := In r (map fst (viewr sh)).
 
 Section Search.
   Variables Q R : Type.
-  Variable doc_match : Q -> N * ddoc -> list R.
+  Variable doc_match : Q -> srepo * ddoc -> list R.
   (** the real engine: result of a query over one shard *)
   Variable engine : Q -> shard -> list R.
   (** TRUSTED (C01, checked here by the Go oracle's query battery): the engine is document-local *)
-  Hypothesis engine_local : forall q sh, engine q sh = flat_map (doc_match q) (view sh).
+  Hypothesis engine_local : forall q sh, engine q sh = flat_map (doc_match q) (viewr sh).
 
   Lemma engine_flat : forall q l,
-    flat_map (doc_match q) (flat_map view l) = flat_map (engine q) l.
+    flat_map (doc_match q) (flat_map viewr l) = flat_map (engine q) l.
   Proof.
     intros q l. rewrite flat_map_flat_map. apply flat_map_ext. intros sh. symmetry. apply engine_local.
   Qed.
@@ -58,8 +69,7 @@ Section Search.
     Forall wf_shard shards -> merge shards = Ok b ->
     engine q b = flat_map (engine q) (sort_prio shards).
   Proof.
-    intros q shards b Hwf Hm. rewrite engine_local.
-    rewrite (binv_view _ _ (merge_binv _ _ Hwf Hm)). apply engine_flat.
+    intros q shards b Hwf Hm. rewrite engine_local, (merge_viewr _ _ Hwf Hm). apply engine_flat.
   Qed.
 
   Lemma search_preserved_merge : forall q shards b,
@@ -74,29 +84,46 @@ Section Search.
     wf_shard sh -> explode sh = Ok outs ->
     flat_map (engine q) outs = engine q sh.
   Proof.
-    intros q sh outs Hwf He. unfold explode in He.
-    destruct (explode_docs_view sh (sh_docs sh) None None [] [] outs Hwf (conj eq_refl eq_refl) (Forall_nil _) He) as [H1 _].
-    simpl in H1. rewrite <- engine_flat, H1. symmetry. apply engine_local.
+    intros q sh outs Hwf He. destruct (explode_viewr sh outs Hwf He) as [H1 _].
+    rewrite <- engine_flat, H1. symmetry. apply engine_local.
   Qed.
 End Search.
 
-(** ---- listing: per repository id the number of visible documents, and which repositories are visible *)
+(** an engine that is document-local over the id view is document-local over the repository view *)
+Lemma id_local_repo_local : forall (Q R : Type) (dm : Q -> N * ddoc -> list R) (engine : Q -> shard -> list R),
+  (forall q sh, engine q sh = flat_map (dm q) (view sh)) ->
+  forall q sh, engine q sh = flat_map (fun e => dm q (id_entry e)) (viewr sh).
+Proof. intros Q R dm engine H q sh. rewrite H, view_viewr. apply flat_map_map. Qed.
+
+(** ---- listing: per repository id the number of visible documents, which repositories are visible, and with
+    which metadata *)
+Lemma in_flat_map_perm : forall A B (g : A -> list B) (l l' : list A) (x : B), Permutation l l' ->
+  (In x (flat_map g l) <-> exists a, In a l' /\ In x (g a)).
+Proof.
+  intros A B g l l' x Hp. rewrite in_flat_map. split; intros [a [Ha Hx]]; exists a; split; auto.
+  - eapply Permutation_in; eauto.
+  - eapply Permutation_in; [apply Permutation_sym|]; eauto.
+Qed.
+
 Lemma listing_preserved_merge : forall id shards b,
   Forall wf_shard shards -> merge shards = Ok b ->
   doc_count id b = list_sum (map (doc_count id) shards) /\
   (visible id b <-> exists sh, In sh shards /\ visible id sh).
 Proof.
-  intros id shards b Hwf Hm. pose proof (binv_view _ _ (merge_binv _ _ Hwf Hm)) as Hv. split.
+  intros id shards b Hwf Hm. pose proof (merge_view _ _ Hwf Hm) as Hv. split.
   - unfold doc_count at 1. rewrite Hv, filter_flat_map_length.
     apply list_sum_perm. apply Permutation_map. apply sort_prio_perm.
-  - unfold visible. rewrite Hv. split.
-    + intros H. apply in_map_iff in H. destruct H as [e [He Hin]]. apply in_flat_map in Hin.
-      destruct Hin as [sh [Hsh Hin]]. exists sh. split.
-      * eapply Permutation_in; [apply sort_prio_perm|exact Hsh].
-      * apply in_map_iff. exists e. auto.
-    + intros [sh [Hsh H]]. apply in_map_iff in H. destruct H as [e [He Hin]].
-      apply in_map_iff. exists e. split; auto. apply in_flat_map. exists sh. split; auto.
-      eapply Permutation_in; [apply Permutation_sym, sort_prio_perm|exact Hsh].
+  - unfold visible. rewrite Hv. rewrite map_flat_map.
+    apply in_flat_map_perm. apply sort_prio_perm.
+Qed.
+
+Lemma repos_preserved_merge : forall r shards b,
+  Forall wf_shard shards -> merge shards = Ok b ->
+  (visible_repo r b <-> exists sh, In sh shards /\ visible_repo r sh).
+Proof.
+  intros r shards b Hwf Hm. unfold visible_repo. rewrite (merge_viewr _ _ Hwf Hm).
+  rewrite map_flat_map.
+  apply in_flat_map_perm. apply sort_prio_perm.
 Qed.
 
 Lemma listing_preserved_explode : forall id sh outs,
@@ -104,13 +131,17 @@ Lemma listing_preserved_explode : forall id sh outs,
   list_sum (map (doc_count id) outs) = doc_count id sh /\
   ((exists o, In o outs /\ visible id o) <-> visible id sh).
 Proof.
-  intros id sh outs Hwf He. unfold explode in He.
-  destruct (explode_docs_view sh (sh_docs sh) None None [] [] outs Hwf (conj eq_refl eq_refl) (Forall_nil _) He) as [H1 _].
-  simpl in H1. split.
-  - unfold doc_count at 2. fold (view sh) in H1. rewrite <- H1, filter_flat_map_length. reflexivity.
-  - unfold visible. fold (view sh) in H1. rewrite <- H1. split.
-    + intros [o [Ho H]]. apply in_map_iff in H. destruct H as [e [He' Hin]].
-      apply in_map_iff. exists e. split; auto. apply in_flat_map. exists o. auto.
-    + intros H. apply in_map_iff in H. destruct H as [e [He' Hin]]. apply in_flat_map in Hin.
-      destruct Hin as [o [Ho Hin]]. exists o. split; auto. apply in_map_iff. exists e. auto.
+  intros id sh outs Hwf He. destruct (explode_view sh outs Hwf He) as [H1 _]. split.
+  - unfold doc_count at 2. rewrite <- H1, filter_flat_map_length. reflexivity.
+  - unfold visible. rewrite <- H1. rewrite map_flat_map.
+    symmetry. apply in_flat_map_perm. apply Permutation_refl.
+Qed.
+
+Lemma repos_preserved_explode : forall r sh outs,
+  wf_shard sh -> explode sh = Ok outs ->
+  ((exists o, In o outs /\ visible_repo r o) <-> visible_repo r sh).
+Proof.
+  intros r sh outs Hwf He. destruct (explode_viewr sh outs Hwf He) as [H1 _].
+  unfold visible_repo. rewrite <- H1. rewrite map_flat_map.
+  symmetry. apply in_flat_map_perm. apply Permutation_refl.
 Qed.
